@@ -870,7 +870,10 @@ def run(ctx):
     return common.finish(ctx, search=search, technique=TECHNIQUE, extra_assumptions=[
         "NumPy text / npy / npz / pickle I/O and tf.data are runtime: exercised and compared exactly, not modelled",
         "merge o split = id needs: every array has the same number n > 0 of rows; sys.maxsize is represented in the model by the total batch count of the arrays (theorem C18_bound_irrelevant)",
-        "lazy = eager is proved for a LazyCall without extra entries; with extra entries it is tied only",
+        "lazy = eager is proved for one LazyCall level with extra entries (LazyFile = the identity instance); a LazyCall over an inner LazyCall is modelled with the composed function (inner object without own extra entries, lazy_batches_shared) and tied",
+        "axis=-1 is proved for 2-D arrays (split_last / concat_last) and tied for trees through the tree model with row = slice along the split axis",
+        "file names (CalAngleData.savetxt charge file) are not modelled: exercised on names with and without extension",
+        "a persistent cache (cached_data file, cached_lazy_call directory) is trusted by design: it is compared with a fresh load of the SAME input files only; reuse of a cache directory with other input files is outside the statement (observation)",
         "data_merge is modelled for pieces with identical key sequences (what data_split yields); its error cases are not modelled",
     ])
 
